@@ -37,6 +37,7 @@
 From ASModel Require Import Base State Orderings_gen Step Run Progress Hist Local Inv InvTl InvProto InvStep Sum StepCases.
 From ASModel Require Import GenDefs Gen1 Gen2 Gen EnvDefs Env4 Env AccDefs Acc1 Acc2 Acc3 Acc4 Acc5 Acc6 Acc7 Acc.
 From ASModel Require Import ProtDefs Prot1 Prot11 Prot16 Prot Typed LinDefs Lin2 Lin Safe1 Safe2 Safe7 Safe8 Safe Main.
+From ASModel Require Import Stale2 Stale2Inv.
 
 Theorem C10_drop_anywhere : forall cf s l l2 v sl x,
   fst (fst (fst (exec cf s l (GD1 v sl) x))) = fst (fst (fst (exec cf s l2 (GD1 v sl) x))) /\
@@ -95,3 +96,22 @@ Print Assumptions C10_fallback_guard_is_owned.
 Print Assumptions C10_guard_keeps_value.
 Print Assumptions C10_guard_keeps_identity.
 Print Assumptions C10_every_state_of_a_run.
+
+(** ** With the four weakened loads of [Stale2.step_stale2]: the master invariant - hence
+    [C10_guard_keeps_value] - holds in every state of every run within [RunOKS2]. *)
+Theorem C10_every_state_of_a_run_stale2 : forall cf inits progs sched,
+  RunOKS2 cf inits progs sched -> forall k, Master (StS2 cf (init_state inits progs) sched k).
+Proof. exact run_stale2_Master. Qed.
+
+Theorem C10_guard_keeps_value_stale2 : forall cf inits progs sched k h a,
+  RunOKS2 cf inits progs sched ->
+  let s := StS2 cf (init_state inits progs) sched k in
+  (hnd s h = HOwned a \/ exists d, hnd s h = HGuard a d) -> valid a ->
+  heap (sh s) a <> None.
+Proof.
+  intros cf inits progs sched k h a R s Hh Hv.
+  exact (Main.C10_guard_keeps_value s h a (run_stale2_Master cf inits progs sched R k) Hh Hv).
+Qed.
+
+Print Assumptions C10_every_state_of_a_run_stale2.
+Print Assumptions C10_guard_keeps_value_stale2.
